@@ -61,6 +61,44 @@ _mk_da("DelayAdjustedSTDP", "weight", False)
 _mk_da("DelayAdjustedSTDPD", "delay", True)
 
 
+def _mk_da3(cls, param, delay_learning):
+    """reward-modulated delay-adjusted rules (scalar signal): |signal * scale| times the two-factor rule, the direction
+    of each half flipped by a negative reward"""
+    for P in ("C18", "C09"):
+        @contract(P, f"{cls}.forward[scalar_signal]", [(D3, f"{cls}.forward")], tags=("trainer",))
+        def fwd(c, cls=cls, P=P):
+            lr_pos, lr_neg, tc_pos, tc_neg = c.real("lr_pos"), c.real("lr_neg"), c.real("tc_pos"), c.real("tc_neg")
+            sig, scale = c.real("signal"), c.real("scale")
+            c.require(tc_pos > 0, tc_neg > 0)
+            tpre, tpost, mons = event_monitors(c)
+            env = Env(c, mons, dict(lr_pos=lr_pos, lr_neg=lr_neg, tc_pos=tc_pos, tc_neg=tc_neg), delayed_conn=True)
+            out = c.outcome(c.function(D3, f"{cls}.forward"), env.trainer, sig, scale)
+            c.expect_return(out)
+            pos, neg = env.captured(param)
+            d = env.conn.fields["delay"].f
+            td = tpre.f - tpost.f - d
+            never = z3.Or(tpre.nan, tpost.nan)
+            mag = sig.z * scale.z
+            mag = z3.If(mag >= 0, mag, -mag)
+            if not delay_learning:
+                causal, acausal = (lr_pos.z, tc_pos.z), (lr_neg.z, tc_neg.z)
+            else:
+                causal, acausal = (lr_neg.z, tc_neg.z), (lr_pos.z, tc_pos.z)
+            half = lambda lr, tc: z3.If(lr * sig.z >= 0, zabs(lr), -zabs(lr)) * f_exp(zabs(td) / -tc)  # noqa: E731
+            rule = z3.If(never, 0, mag * z3.If(td >= 0, half(*causal), half(*acausal)))
+            c.ensure("pos_nonnegative", val(pos) >= 0)
+            c.ensure("neg_nonnegative", val(neg) >= 0)
+            c.ensure("net_is_signal_scaled_delay_adjusted_rule", val(pos) - val(neg) == rule)
+            c.ensure("no_change_before_both_sides_spiked", z3.Implies(never, z3.And(val(pos) == 0, val(neg) == 0)))
+            # a positive unit reward reproduces the two-factor rule
+            c.ensure("unit_reward_is_the_two_factor_rule", z3.Implies(z3.And(sig.z == 1, scale.z == 1), val(pos) - val(neg) == da_rule(tpre, tpost, d, lr_pos.z, lr_neg.z, tc_pos.z, tc_neg.z, delay_learning)[0]))
+            c.canary("canary_ignores_signal_sign", z3.And(z3.Not(never), sig.z < 0, mag > 0, lr_pos.z > 0, lr_neg.z > 0, val(pos) - val(neg) == da_rule(tpre, tpost, d, lr_pos.z, lr_neg.z, tc_pos.z, tc_neg.z, delay_learning)[0] * mag))
+
+
+_mk_da3("DelayAdjustedMSTDP", "weight", False)
+_mk_da3("DelayAdjustedMSTDPD", "delay", True)
+
+
 for _P in ("C18",):
     @contract(_P, "stdkernels", [(SK, "exp_stdp_post_kernel"), (SK, "exp_stdp_pre_kernel")], tags=("kernel",))
     def kernels(c):
@@ -140,6 +178,8 @@ ASSUMPTIONS = [
 ]
 
 MUTANTS = [
+    dict(file=D3, func="DelayAdjustedMSTDP.forward", old="                match (state.lr_pos * signal >= 0, state.lr_neg * signal >= 0):", new="                match (state.lr_pos >= 0, state.lr_neg >= 0):", contracts=["DelayAdjustedMSTDP.forward[scalar_signal]"], name="reward sign ignored when routing LTP/LTD"),
+    dict(file=D3, func="DelayAdjustedMSTDPD.forward", old="                torch.exp(t_delta_abs / (-state.tc_neg))\n                * (abs(state.lr_neg) * (t_delta >= 0).to(dtype=t_delta_abs.dtype)),", new="                torch.exp(t_delta_abs / (-state.tc_pos))\n                * (abs(state.lr_neg) * (t_delta >= 0).to(dtype=t_delta_abs.dtype)),", contracts=["DelayAdjustedMSTDPD.forward[scalar_signal]"], name="causal half uses the wrong time constant"),
     dict(file=D2, func="DelayAdjustedSTDP.forward", old="t_delta = t_pre - t_post - cell.connection.delay.unsqueeze(-1)", new="t_delta = t_post - t_pre - cell.connection.delay.unsqueeze(-1)", contracts=["DelayAdjustedSTDP.forward"]),
     dict(file=D2, func="DelayAdjustedSTDP.forward", old="t_delta = t_pre - t_post - cell.connection.delay.unsqueeze(-1)", new="t_delta = t_pre - t_post + cell.connection.delay.unsqueeze(-1)", contracts=["DelayAdjustedSTDP.forward"]),
     dict(file=D2, func="DelayAdjustedSTDP.forward", old="match (state.lr_pos >= 0, state.lr_neg >= 0):", new="match (state.lr_pos >= 0, self.lr_neg >= 0):", contracts=["DelayAdjustedSTDP.forward"], name="seed C18: routing by trainer default lr_neg"),
